@@ -18,6 +18,11 @@ package rosmar
 //@ spec eventOf(k, r) = Event{key: k, value: r.value, isDeletion: isnull(r.value), isJSON: r.isJSON != 0, xattrs: r.xattrs, cas: r.cas, exp: r.exp, rev: r.rev}
 //@ spec HlcInv(r) = r.present ==> r.cas <= hlc.highestTime
 //@ dbinvariant DocInv(r) && HlcInv(r) && IntOK(r)
+//@
+// Candidate invariants for map-range loops that have no invariant of their own (for instance a filter loop that a
+// refactoring moved into a new helper). A candidate is assumed only at loops where it is proved inductive.
+//@ candidate maprange forall k: Str :: it[k] == (if visited[k] && !issys(k) then NOX else it0[k])
+//@ candidate maprange forall k: Str :: it[k] == NOX || it[k] == it0[k]
 //@ spec IntOK(r) = r.rev < 4611686018427387904 && hlc.highestTime < 9223372036854775807
 
 // Generic clauses of every mutating entry point (G1..G8 of DESIGN.md 2.5). `r`/`r2` are the addressed row before/after.
